@@ -109,8 +109,8 @@ Print Assumptions C01_slanet_recorded_traces.
    was_empty, probe results, lock restarts, every dq_state value written, pop results, item identities; final model state =
    recorded final state) is established by RUNNING the executable scheduler on that round, i.e. it is a test, repeated on
    every run of the check, not a theorem *)
-Theorem C01_slanet_replay_reach : forall rb fuel w s qs ord done,
-  qs_ok qs = true -> reach rb s -> reach rb (fst (fst (sched fuel w s qs ord done))).
+Theorem C01_slanet_replay_reach : forall rb fuel w ids s qs ord done,
+  qs_ok qs = true -> reach rb s -> reach rb (fst (fst (sched fuel w ids s qs ord done))).
 Proof. exact sched_reach. Qed.
 Print Assumptions C01_slanet_replay_reach.
 
